@@ -4,6 +4,7 @@
    freeing a foreign pointer that lies inside the arena (client misbehaviour the pool cannot detect). *)
 From ZV.Common Require Import Base.
 From ZV.C07 Require Import Model ProofsArith ProofsLockFree ProofsProps ProofsBump ProofsFixedCap.
+From ZV.C07 Require Import ModelFive ProofsFiveArith ProofsFive ProofsFiveProps Cases.
 Open Scope N_scope.
 
 (* any two live allocations occupy disjoint byte ranges - for every history and every arena size *)
@@ -154,3 +155,158 @@ Check fixedcap_live_disjoint_within :
        nth_error (flive s) i = Some (o1, k1) -> nth_error (flive s) j = Some (o2, k2) -> disjoint o1 mx o2 mx) /\
     (forall o k, In (o, k) (flive s) -> o + mx <= nb * mx).
 Print Assumptions fixedcap_live_disjoint_within.
+
+(* ------------------------------------------------------------------------------------------- *)
+(* five-level pool family (ModelFive.v)                                                        *)
+(* ------------------------------------------------------------------------------------------- *)
+(* five-level family (NoLockingPool / MutexBasedPool / LockFreePool, sequential / FixedCapacityPool): for every configuration
+   the constructor accepts and every history of alloc / free, live blocks are pairwise disjoint at their full aligned sizes,
+   at least as large as requested, aligned, inside the capacity and addressable by a 32-bit MemOffset *)
+Theorem five_level_inv :
+  forall c ops, new_ok5 Fixed c = true ->
+    let s := final5 Fixed c ops in
+    (forall i j o1 r1 o2 r2, i <> j -> nth_error (live5 s) i = Some (o1, r1) -> nth_error (live5 s) j = Some (o2, r2) ->
+       disjoint o1 (cap5 c r1) o2 (cap5 c r2)) /\
+    (forall o r, In (o, r) (live5 s) ->
+       0 < r /\ r <= cap5 c r /\ o mod f_al c = 0 /\ o + cap5 c r <= f_cap c /\ o + cap5 c r <= U32MAX).
+Proof. exact five_level_inv_proof. Qed.
+Check five_level_inv :
+  forall c ops, new_ok5 Fixed c = true ->
+    let s := final5 Fixed c ops in
+    (forall i j o1 r1 o2 r2, i <> j -> nth_error (live5 s) i = Some (o1, r1) -> nth_error (live5 s) j = Some (o2, r2) ->
+       disjoint o1 (cap5 c r1) o2 (cap5 c r2)) /\
+    (forall o r, In (o, r) (live5 s) ->
+       0 < r /\ r <= cap5 c r /\ o mod f_al c = 0 /\ o + cap5 c r <= f_cap c /\ o + cap5 c r <= U32MAX).
+Print Assumptions five_level_inv.
+
+(* a request beyond the capacity is refused and leaves the pool unchanged, in every reachable state *)
+Theorem five_level_refuses_over_capacity :
+  forall c ops size, new_ok5 Fixed c = true -> f_cap c < size ->
+    alloc5 Fixed c (p5 (final5 Fixed c ops)) size = (None, p5 (final5 Fixed c ops)).
+Proof. exact five_level_refuses_proof. Qed.
+Check five_level_refuses_over_capacity :
+  forall c ops size, new_ok5 Fixed c = true -> f_cap c < size ->
+    alloc5 Fixed c (p5 (final5 Fixed c ops)) size = (None, p5 (final5 Fixed c ops)).
+Print Assumptions five_level_refuses_over_capacity.
+
+(* refusal exactly when the capacity is exceeded: a valid request fails iff its bin is empty and the aligned size does not fit
+   behind the used memory - also for FixedCapacityPool, whose used_memory check in front never refuses a servable request *)
+Theorem five_level_refusal_exact :
+  forall c ops size, new_ok5 Fixed c = true -> 0 < size -> size < W63 ->
+    let p := p5 (final5 Fixed c ops) in
+    let a := cap5 c size in
+    fst (alloc5 Fixed c p size) = None <->
+    ((a <= f_fast c -> pop5 (bin5 c a) (fl5 p) = None) /\ f_cap c < top5 p + a).
+Proof. exact five_level_refusal_exact_proof. Qed.
+Check five_level_refusal_exact :
+  forall c ops size, new_ok5 Fixed c = true -> 0 < size -> size < W63 ->
+    let p := p5 (final5 Fixed c ops) in
+    let a := cap5 c size in
+    fst (alloc5 Fixed c p size) = None <->
+    ((a <= f_fast c -> pop5 (bin5 c a) (fl5 p) = None) /\ f_cap c < top5 p + a).
+Print Assumptions five_level_refusal_exact.
+
+(* size-class round trip: the class of a request holds it; bin index and class size are inverse; the fast-bin guard
+   `bin_index < free_lists.len()` never fails on the fast path; a fresh block is carved at exactly the size of the class
+   it is filed under when freed (or merged back at exactly that size) *)
+Theorem five_level_class_roundtrip :
+  forall c size, new_ok5 Fixed c = true -> 0 < size -> size < W63 ->
+    let a := cap5 c size in
+    let b := bin5 c a in
+    size <= a /\ a < size + f_al c /\ a mod f_al c = 0 /\ cap5 c a = a /\ class5 c b = a /\ bin5 c (class5 c b) = b /\
+    (a <= f_fast c -> b < nbins5 c) /\
+    (forall p r p', alloc5 Fixed c p size = (r, p') -> top5 p' = top5 p \/ (top5 p' = top5 p + class5 c b /\ r = Some (top5 p))) /\
+    (forall p off, a <= f_fast c -> exists p', free5 c p off size = (true, p') /\
+       (fl5 p' = (b, off) :: fl5 p \/ (has_merge (f_kind c) = true /\ off + class5 c b = top5 p /\ top5 p' = off /\ fl5 p' = fl5 p))).
+Proof. exact five_level_class_roundtrip_proof. Qed.
+Check five_level_class_roundtrip :
+  forall c size, new_ok5 Fixed c = true -> 0 < size -> size < W63 ->
+    let a := cap5 c size in
+    let b := bin5 c a in
+    size <= a /\ a < size + f_al c /\ a mod f_al c = 0 /\ cap5 c a = a /\ class5 c b = a /\ bin5 c (class5 c b) = b /\
+    (a <= f_fast c -> b < nbins5 c) /\
+    (forall p r p', alloc5 Fixed c p size = (r, p') -> top5 p' = top5 p \/ (top5 p' = top5 p + class5 c b /\ r = Some (top5 p))) /\
+    (forall p off, a <= f_fast c -> exists p', free5 c p off size = (true, p') /\
+       (fl5 p' = (b, off) :: fl5 p \/ (has_merge (f_kind c) = true /\ off + class5 c b = top5 p /\ top5 p' = off /\ fl5 p' = fl5 p))).
+Print Assumptions five_level_class_roundtrip.
+
+(* freeing a live block is accepted; a fast block that is not merged back is handed out for the next request of its class *)
+Theorem five_level_free_reuse :
+  forall c ops l1 l2 off req, new_ok5 Fixed c = true ->
+    live5 (final5 Fixed c ops) = l1 ++ (off, req) :: l2 ->
+    let p := p5 (final5 Fixed c ops) in
+    exists p', free5 c p off req = (true, p') /\
+      (cap5 c req <= f_fast c -> ~ (has_merge (f_kind c) = true /\ off + cap5 c req = top5 p) ->
+       forall req2, 0 < req2 -> req2 < W63 -> cap5 c req2 = cap5 c req -> fst (alloc5 Fixed c p' req2) = Some off).
+Proof. exact five_level_free_reuse_proof. Qed.
+Check five_level_free_reuse :
+  forall c ops l1 l2 off req, new_ok5 Fixed c = true ->
+    live5 (final5 Fixed c ops) = l1 ++ (off, req) :: l2 ->
+    let p := p5 (final5 Fixed c ops) in
+    exists p', free5 c p off req = (true, p') /\
+      (cap5 c req <= f_fast c -> ~ (has_merge (f_kind c) = true /\ off + cap5 c req = top5 p) ->
+       forall req2, 0 < req2 -> req2 < W63 -> cap5 c req2 = cap5 c req -> fst (alloc5 Fixed c p' req2) = Some off).
+Print Assumptions five_level_free_reuse.
+
+(* a block is re-issued only from the bin of the request's own class, whose block size holds the request *)
+Theorem five_level_reissue_fits :
+  forall c p size o p', new_ok5 Fixed c = true ->
+    alloc5 Fixed c p size = (Some o, p') -> top5 p' = top5 p ->
+    In (bin5 c (cap5 c size), o) (fl5 p) /\ size <= class5 c (bin5 c (cap5 c size)).
+Proof. exact five_level_reissue_fits_proof. Qed.
+Check five_level_reissue_fits :
+  forall c p size o p', new_ok5 Fixed c = true ->
+    alloc5 Fixed c p size = (Some o, p') -> top5 p' = top5 p ->
+    In (bin5 c (cap5 c size), o) (fl5 p) /\ size <= class5 c (bin5 c (cap5 c size)).
+Print Assumptions five_level_reissue_fits.
+
+(* capacity accounting of NoLockingPool / FixedCapacityPool: used_memory is exactly the bytes of the live blocks (its
+   subtractions never underflow) and remaining_capacity() is the capacity minus those bytes *)
+Theorem five_level_used_exact :
+  forall c ops, new_ok5 Fixed c = true -> has_merge (f_kind c) = true ->
+    let s := final5 Fixed c ops in
+    used5 (p5 s) = live_bytes5 c (live5 s) /\ remaining5 c (p5 s) + live_bytes5 c (live5 s) = f_cap c /\
+    live_bytes5 c (live5 s) <= top5 (p5 s) /\ top5 (p5 s) <= f_cap c.
+Proof. exact five_level_used_exact_proof. Qed.
+Check five_level_used_exact :
+  forall c ops, new_ok5 Fixed c = true -> has_merge (f_kind c) = true ->
+    let s := final5 Fixed c ops in
+    used5 (p5 s) = live_bytes5 c (live5 s) /\ remaining5 c (p5 s) + live_bytes5 c (live5 s) = f_cap c /\
+    live_bytes5 c (live5 s) <= top5 (p5 s) /\ top5 (p5 s) <= f_cap c.
+Print Assumptions five_level_used_exact.
+
+(* the 4-byte free-list link written into a freed block is 4-aligned, inside that block and touches no other live block *)
+Theorem five_link_write_safe :
+  forall c ops i j o1 r1 o2 r2, new_ok5 Fixed c = true -> i <> j ->
+    nth_error (live5 (final5 Fixed c ops)) i = Some (o1, r1) -> nth_error (live5 (final5 Fixed c ops)) j = Some (o2, r2) ->
+    o1 mod 4 = 0 /\ o1 + 4 <= o1 + cap5 c r1 /\ disjoint o1 4 o2 (cap5 c r2).
+Proof. exact five_link_write_safe_proof. Qed.
+Check five_link_write_safe :
+  forall c ops i j o1 r1 o2 r2, new_ok5 Fixed c = true -> i <> j ->
+    nth_error (live5 (final5 Fixed c ops)) i = Some (o1, r1) -> nth_error (live5 (final5 Fixed c ops)) j = Some (o2, r2) ->
+    o1 mod 4 = 0 /\ o1 + 4 <= o1 + cap5 c r1 /\ disjoint o1 4 o2 (cap5 c r2).
+Print Assumptions five_link_write_safe.
+
+(* pinned code: capacity above 4 GiB - the block at offset 2^32 is issued as MemOffset 0 again *)
+Theorem five_offset_wrap_refuted :
+  exists c ops, new_ok5 Pinned c = true /\
+    live5 (final5 Pinned c ops) = [(0, 4294967288); (4294967288, 8); (0, 8)] /\
+    ~ disjoint 0 4294967288 0 8.
+Proof. exact five_offset_wrap_refuted_proof. Qed.
+Check five_offset_wrap_refuted :
+  exists c ops, new_ok5 Pinned c = true /\
+    live5 (final5 Pinned c ops) = [(0, 4294967288); (4294967288, 8); (0, 8)] /\
+    ~ disjoint 0 4294967288 0 8.
+Print Assumptions five_offset_wrap_refuted.
+
+(* pinned code: alignment 2 - the link of the freed block at offset 2 is misaligned and covers the live block at offset 4 *)
+Theorem five_small_align_refuted :
+  exists c ops, new_ok5 Pinned c = true /\
+    live5 (final5 Pinned c ops) = [(0, 2); (2, 2); (4, 2)] /\
+    2 mod 4 <> 0 /\ ~ disjoint 2 4 4 (cap5 c 2).
+Proof. exact five_small_align_refuted_proof. Qed.
+Check five_small_align_refuted :
+  exists c ops, new_ok5 Pinned c = true /\
+    live5 (final5 Pinned c ops) = [(0, 2); (2, 2); (4, 2)] /\
+    2 mod 4 <> 0 /\ ~ disjoint 2 4 4 (cap5 c 2).
+Print Assumptions five_small_align_refuted.
